@@ -36,3 +36,28 @@ mod counted_array;
 pub use crate::compiler::c::CCompilerKind;
 pub use crate::compiler::compiler::*;
 pub use crate::compiler::preprocessor_cache::PreprocessorCacheEntry;
+
+/// Verification hooks (only with `--cfg sccache_verif`): the private compiler
+/// sub-modules, re-exported for the external harness.
+#[cfg(sccache_verif)]
+#[doc(hidden)]
+pub mod verif {
+    pub mod args {
+        pub use crate::compiler::args::*;
+    }
+    pub mod c {
+        pub use crate::compiler::c::*;
+    }
+    pub mod clang {
+        pub use crate::compiler::clang::*;
+    }
+    pub mod gcc {
+        pub use crate::compiler::gcc::*;
+    }
+    pub mod preprocessor_cache {
+        pub use crate::compiler::preprocessor_cache::*;
+    }
+    pub mod rust {
+        pub use crate::compiler::rust::*;
+    }
+}
